@@ -11,6 +11,9 @@ import PyTough.Proofs.ThermoSat
 import PyTough.Proofs.ThermoSatExamples
 import PyTough.Proofs.ThermoSatOn
 import PyTough.Proofs.ThermoMono
+import PyTough.Proofs.IapwsMonoR1BoxA
+import PyTough.Proofs.IapwsMonoR1BoxB
+import PyTough.Proofs.IapwsMonoR1BoxC
 import PyTough.Proofs.ThermoVisc
 
 namespace Props.C14
@@ -103,6 +106,54 @@ theorem density_monotone_r2_partial (t p1 p2 : ℝ) (ht : t ≤ 800) (h1 : 0 < p
   · exact density_mono_box5 t p1 p2 a ht h1 h12 b
 
 example : (400 : ℝ) ≤ 800 ∧ (0 : ℝ) < 100000 ∧ (100000 : ℝ) < 8000000 ∧ ((350 : ℝ) ≤ 400 ∧ (8000000 : ℝ) ≤ 10000000) := by norm_num
+
+/-- **Region 1 (liquid water, `cowat`), on thirteen boxes**: at fixed `t`, for pressures `p1 < p2 ≤ 100 MPa` of the box, `cowat` returns a
+    positive density that strictly increases with pressure.  Covered: every pressure `0 … 100 MPa` for `0 ≤ t ≤ 230` degC, and for each
+    10-degree slab from 230 to 350 degC the pressures from the stated lower limit (4 MPa at 230–240 … 50 MPa at 340–350) up to 100 MPa.
+    `ρ = p* / (R T γ_π)`, `γ_π = −Σ nᵢ Iᵢ (7.1 − π)^(Iᵢ−1) (τ − 1.222)^Jᵢ`; on each box every term of `γ_π` and of its difference quotient
+    in `π` is bounded at the corner chosen by the signs of `nᵢ`, `Jᵢ` (both bases are positive), and the two sums of corner values over the
+    generated 34-row table are negative (`norm_num`), i.e. `γ_π > 0`, `γ_ππ < 0` (`Proofs/IapwsMonoR1*.lean`).
+    `_partial`: above 230 degC the strip between the saturation pressure (3.3 MPa at 240 … 16.5 MPa at 350 degC) and the stated lower
+    limit is not proved — there the terms `I = 29 … 32` cancel to many digits and termwise bounds are useless (sampled by the oracle);
+    region 3 is not proved. -/
+theorem density_monotone_r1_partial (t p1 p2 : ℝ) (h12 : p1 < p2) (hp2 : p2 ≤ 100000000)
+    (hbox : (0 ≤ t ∧ t ≤ 230 ∧ 0 ≤ p1) ∨
+            (230 ≤ t ∧ t ≤ 240 ∧ 4000000 ≤ p1) ∨ (240 ≤ t ∧ t ≤ 250 ∧ 9500000 ≤ p1) ∨ (250 ≤ t ∧ t ≤ 260 ∧ 14500000 ≤ p1) ∨
+            (260 ≤ t ∧ t ≤ 270 ∧ 19000000 ≤ p1) ∨ (270 ≤ t ∧ t ≤ 280 ∧ 23500000 ≤ p1) ∨ (280 ≤ t ∧ t ≤ 290 ∧ 28000000 ≤ p1) ∨
+            (290 ≤ t ∧ t ≤ 300 ∧ 32000000 ≤ p1) ∨ (300 ≤ t ∧ t ≤ 310 ∧ 36000000 ≤ p1) ∨ (310 ≤ t ∧ t ≤ 320 ∧ 40000000 ≤ p1) ∨
+            (320 ≤ t ∧ t ≤ 330 ∧ 43500000 ≤ p1) ∨ (330 ≤ t ∧ t ≤ 340 ∧ 46500000 ≤ p1) ∨ (340 ≤ t ∧ t ≤ 350 ∧ 50000000 ≤ p1)) :
+    ∃ d1 u1 d2 u2, cowat t p1 = Ret.pair d1 u1 ∧ cowat t p2 = Ret.pair d2 u2 ∧ 0 < d1 ∧ d1 < d2 := by
+  rcases hbox with ⟨a, b, c⟩ | ⟨a, b, c⟩ | ⟨a, b, c⟩ | ⟨a, b, c⟩ | ⟨a, b, c⟩ | ⟨a, b, c⟩ | ⟨a, b, c⟩ | ⟨a, b, c⟩ | ⟨a, b, c⟩ |
+    ⟨a, b, c⟩ | ⟨a, b, c⟩ | ⟨a, b, c⟩ | ⟨a, b, c⟩
+  · by_cases h : t ≤ 225
+    · exact cowat_mono_box0 t p1 p2 a h c h12 hp2
+    · exact cowat_mono_box1 t p1 p2 (by linarith) b c h12 hp2
+  · exact cowat_mono_box2 t p1 p2 a b c h12 hp2
+  · exact cowat_mono_box3 t p1 p2 a b c h12 hp2
+  · exact cowat_mono_box4 t p1 p2 a b c h12 hp2
+  · exact cowat_mono_box5 t p1 p2 a b c h12 hp2
+  · exact cowat_mono_box6 t p1 p2 a b c h12 hp2
+  · exact cowat_mono_box7 t p1 p2 a b c h12 hp2
+  · exact cowat_mono_box8 t p1 p2 a b c h12 hp2
+  · exact cowat_mono_box9 t p1 p2 a b c h12 hp2
+  · exact cowat_mono_box10 t p1 p2 a b c h12 hp2
+  · exact cowat_mono_box11 t p1 p2 a b c h12 hp2
+  · exact cowat_mono_box12 t p1 p2 a b c h12 hp2
+  · exact cowat_mono_box13 t p1 p2 a b c h12 hp2
+
+example : (101325 : ℝ) < 50000000 ∧ (50000000 : ℝ) ≤ 100000000 ∧ ((0 : ℝ) ≤ 100 ∧ (100 : ℝ) ≤ 230 ∧ (0 : ℝ) ≤ 101325) := by norm_num
+example : (60000000 : ℝ) < 90000000 ∧ (90000000 : ℝ) ≤ 100000000 ∧ ((340 : ℝ) ≤ 345 ∧ (345 : ℝ) ≤ 350 ∧ (50000000 : ℝ) ≤ 60000000) := by norm_num
+
+/-- **All of region 1 up to 230 degC**: whenever the classifier puts both states `(t, p1)`, `(t, p2)`, `p1 < p2`, in region 1 and
+    `t ≤ 230`, the density `cowat` returns is positive and strictly larger at the higher pressure — no box hypothesis.
+    `_partial`: only `t ≤ 230` (for hotter liquid see the boxes of `density_monotone_r1_partial`). -/
+theorem density_monotone_region1_partial (t p1 p2 : ℝ) (ht : t ≤ 230) (h12 : p1 < p2)
+    (hr1 : region t p1 = Ret.int 1) (hr2 : region t p2 = Ret.int 1) :
+    ∃ d1 u1 d2 u2, cowat t p1 = Ret.pair d1 u1 ∧ cowat t p2 = Ret.pair d2 u2 ∧ 0 < d1 ∧ d1 < d2 := by
+  obtain ⟨a, _, c, _, _⟩ := (region_one t p1).mp hr1
+  obtain ⟨_, _, _, d, _⟩ := (region_one t p2).mp hr2
+  have : (0 : ℝ) ≤ tmin := by unfold tmin; norm_num
+  exact density_monotone_r1_partial t p1 p2 h12 d (Or.inl ⟨by linarith, ht, c⟩)
 
 /-! ### the region classifier names the region whose equation is valid -/
 
